@@ -199,7 +199,7 @@ func (env *Env) elab(x Expr) (string, SType, error) {
 			env.trigger(r, it)
 			return r, SType{T: u.Elem()}, nil
 		case *types.Slice:
-			r := fmt.Sprintf("(select (select %s (s_arr %s)) (idx %s %s))", env.heap(w.heapArr(u.Elem())), t, t, it)
+			r := fmt.Sprintf("(select (select %s (s_arr %s)) (addi (s_off %s) %s))", env.heap(w.heapArr(u.Elem())), t, t, it)
 			env.trigger(r, it)
 			return r, SType{T: u.Elem()}, nil
 		case *types.Basic:
@@ -467,6 +467,63 @@ func (env *Env) elabCall(n ECall) (string, SType, error) {
 		name := q("apply:" + typeStr(fst.T.Underlying()))
 		e.declareFun(name, sorts, w.sortOf(sig.Results().At(0).Type()))
 		return fmt.Sprintf("(%s %s)", name, strings.Join(as, " ")), SType{T: sig.Results().At(0).Type()}, nil
+	case "at": // at(a, o, j): element o+j of a raw SMT array, in the same shape as slice element access
+		a, ast, err := env.elab(n.Args[0])
+		if err != nil {
+			return "", tBool, err
+		}
+		o, _, err := env.elab(n.Args[1])
+		if err != nil {
+			return "", tBool, err
+		}
+		j, _, err := env.elab(n.Args[2])
+		if err != nil {
+			return "", tBool, err
+		}
+		if ast.T != nil || !strings.HasPrefix(ast.Abs, "(Array Int ") {
+			return "", tBool, fmt.Errorf("at needs a raw Int-indexed array, got %s", ast)
+		}
+		es := strings.TrimSuffix(strings.TrimPrefix(ast.Abs, "(Array Int "), ")")
+		st := SType{Abs: es}
+		switch es {
+		case "Str":
+			st = tStr
+		case "Int":
+			st = tInt
+		case "Bool":
+			st = tBool
+		}
+		r := fmt.Sprintf("(select %s (addi %s %s))", a, o, j)
+		env.trigger(r, j)
+		return r, st, nil
+	case "sel": // sel(a, i): element of a raw SMT array
+		a, ast, err := env.elab(n.Args[0])
+		if err != nil {
+			return "", tBool, err
+		}
+		i, _, err := env.elab(n.Args[1])
+		if err != nil {
+			return "", tBool, err
+		}
+		if ast.T != nil || !strings.HasPrefix(ast.Abs, "(Array ") {
+			return "", tBool, fmt.Errorf("sel needs a raw array, got %s", ast)
+		}
+		// element sort: last component of (Array K V)
+		inner := strings.TrimSuffix(strings.TrimPrefix(ast.Abs, "(Array "), ")")
+		sp := strings.Index(inner, " ")
+		es := strings.TrimSpace(inner[sp+1:])
+		st := SType{Abs: es}
+		switch es {
+		case "Str":
+			st = tStr
+		case "Int":
+			st = tInt
+		case "Bool":
+			st = tBool
+		}
+		r := fmt.Sprintf("(select %s %s)", a, i)
+		env.trigger(r, i)
+		return r, st, nil
 	case "ref": // view any Ref-sorted value as Ref
 		t, _, err := env.elab(n.Args[0])
 		return t, tRef, err
